@@ -86,6 +86,9 @@ func Flag(name string, v int) {}
 // "store-caller-buffer").  Natively always 0.
 func Events(kind string) int { return 0 }
 
+// Memo returns f() and lets the engine cache the (concrete) result per run.
+func Memo(key string, f func() []byte) []byte { return f() }
+
 // Register makes a harness runnable natively by name.
 func Register(name string, f func()) { registry[name] = f }
 
